@@ -804,13 +804,26 @@ func applyOp(o Op) error {
 // ---------------------------------------------------------------- abstraction of a trace to model effects
 
 type TEff struct {
-	Kind string   `json:"kind"` // rm | rmempty | segtmp | segset | segremove | mmtmp | mmset | mmremove | vttrunc | vtset
+	Kind string   `json:"kind"` // rm | rmempty | segtmp | segset | segremove | mmtmp | mmset | mmremove | vttmp | vtset | vttrunc (unfixed code)
 	Path string   `json:"path,omitempty"`
 	List []string `json:"list,omitempty"`
 	Org  int64    `json:"org,omitempty"`
 }
 
 var reVtFile = regexp.MustCompile(`/virtualtablenames(?:-(\d+))?\.txt$`)
+var reVtTmpFile = regexp.MustCompile(`/virtualtablenames(?:-(\d+))?\.txt\.tmp$`)
+
+func vtTmpOrg(p string) (int64, bool) {
+	m := reVtTmpFile.FindStringSubmatch(p)
+	if m == nil {
+		return 0, false
+	}
+	if m[1] == "" {
+		return 0, true
+	}
+	n, _ := strconv.ParseInt(m[1], 10, 64)
+	return n, true
+}
 
 func vtOrg(p string) (int64, bool) {
 	m := reVtFile.FindStringSubmatch(p)
@@ -857,7 +870,10 @@ func abstractTrace(ops []Op, hostRoot string, targets []string) ([]TEff, []int) 
 			} else if strings.HasSuffix(o.Path, smrMm+".tmp") {
 				effs = append(effs, TEff{Kind: "mmtmp"})
 			} else if org, ok := vtOrg(o.Path); ok {
+				// only the code before the fix opens the names file itself with O_TRUNC
 				effs = append(effs, TEff{Kind: "vttrunc", Org: org})
+			} else if org, ok := vtTmpOrg(o.Path); ok {
+				effs = append(effs, TEff{Kind: "vttmp", Org: org})
 			}
 		case "write":
 			written[o.Path] = append(written[o.Path], o.Data...)
@@ -890,6 +906,14 @@ func abstractTrace(ops []Op, hostRoot string, targets []string) ([]TEff, []int) 
 					l = append(l, e.Dir)
 				}
 				effs = append(effs, TEff{Kind: "mmset", List: l})
+			} else if org, ok := vtOrg(o.To); ok {
+				// the names file is replaced by its .tmp: the org's names become the written lines
+				var names []string
+				for _, l := range lines {
+					names = append(names, string(l))
+				}
+				sort.Strings(names)
+				effs = append(effs, TEff{Kind: "vtset", Org: org, List: names})
 			}
 		case "unlink":
 			if strings.HasSuffix(o.Path, smrSeg) {
@@ -1030,6 +1054,8 @@ func coqTEff(in *interner, e TEff) string {
 		return "TRmEmpty " + in.path(e.Path)
 	case "vttrunc":
 		return fmt.Sprintf("TVtTrunc %s%%Z", vhlib.CoqZ(e.Org))
+	case "vttmp":
+		return fmt.Sprintf("TVtTmp %s%%Z", vhlib.CoqZ(e.Org))
 	case "vtset":
 		items := make([]string, len(e.List))
 		for i, n := range e.List {
